@@ -36,6 +36,7 @@ class FGen:
         self.neq = neq
         self.max_ops = max_ops
         self.cnt = itertools.count()
+        self.stages = memory_bias and rng.random() < 0.35     # every phase opens with a Runge-Kutta stage pattern
         # open finding: <builtin>elementwise_abs of an ARRAY returns a 1-based array in Fortran (pinned by
         # the repository's own test_elementwise_abs); such results are subscripted only in a rare class
         self.allow_onebased_subscript = rng.random() < 0.05
@@ -98,8 +99,11 @@ class FGen:
             u = rng.choice(sorted(sc["uts"]))
             return ["call", rng.choice(["<builtin>norm_2", "<builtin>norm_2", "<builtin>len"]), [["var", u]], {}]
         args = [self.num_expr(sc, d - 1), self.num_expr(sc, d - 1)]
-        if rng.random() < 0.4:
+        q = rng.random()
+        if q < 0.25:
             return ["call", "<func>sf", [args[0]], {"a1": args[1]}]
+        if q < 0.4:
+            return ["call", "<func>sf", [], {"a1": args[1], "a0": args[0]}]      # written out of alphabetical order
         return ["call", "<func>sf", args, {}]
 
     def index_for(self, sc, length):
@@ -141,7 +145,21 @@ class FGen:
             return ["-", ["var", rng.choice(same)], ["var", rng.choice(same)]]
         if r < 0.85:
             f = "<func>rhs" if tid == VT else "<func>rhs2"
-            return ["call", f, [self.num_expr(sc, d - 1), ["var", rng.choice(same)]], {}]
+            arg = ["var", rng.choice(same)]
+            q = rng.random()
+            if q < 0.45:
+                # stage-value argument 'rhs(t + c*dt, y + dt*k1)': isolated into a user-type temporary whose
+                # statement id ('tmp', 'tmp_0', ...) is only unique within its phase
+                arg = ["+", ["var", rng.choice(same)], ["*", rng.choice([["var", "<dt>"], ["num", 0.5]]),
+                                                       ["var", rng.choice(same)]]]
+            elif q < 0.55:
+                arg = self.ut_expr(sc, d - 1, tid)
+            return ["call", f, [self.num_expr(sc, d - 1), arg], {}]
+        if r < 0.89 and d >= 1:
+            f = "<func>rhs" if tid == VT else "<func>rhs2"
+            return ["+", ["var", rng.choice(same)],
+                    ["*", rng.choice([["var", "<dt>"], ["num", 0.5]]),
+                     ["call", f, [self.num_leaf(sc), ["var", rng.choice(same)]], {}]]]
         if r < 0.93:
             return ["call", "<builtin>elementwise_abs", [["var", rng.choice(same)]], {}]
         return ["/", ["var", rng.choice(same)], ["num", 2]]
@@ -203,8 +221,60 @@ class FGen:
                 tgt = [u for u, t in persist["uts"].items() if t == tid]
                 ops.append(["assign", rng.choice(tgt), None, ["var", tmp], [], 0])
                 continue
+            if self.memory_bias and (rng.random() < 0.1 or (self.stages and not in_cond and not ops)):
+                # Runge-Kutta stage pattern with the same stage names in every phase: the second stage's
+                # argument is an expression in k1 (isolated by the passes into 'tmp*' statements whose ids
+                # repeat from phase to phase); k1 may or may not be needed again by the final combination
+                tid = VT
+                same = [u for u, t in sc["uts"].items() if t == tid]
+                y = rng.choice(same)
+                a = rng.choice([["var", "<dt>"], ["*", ["var", "<dt>"], ["num", 0.5]], ["num", 0.5]])
+                tt = rng.choice([["var", "<t>"], ["+", ["var", "<t>"], ["var", "<dt>"]]])
+                ops.append(["call", ["k1"], "<func>rhs", [["var", "<t>"], ["var", y]], {}, 0])
+                ops.append(["call", ["k2"], "<func>rhs", [tt, ["+", ["var", y], ["*", a, ["var", "k1"]]]], {}, 0])
+                sc["uts"]["k1"] = tid
+                sc["uts"]["k2"] = tid
+                tgt = rng.choice([u for u, t in persist["uts"].items() if t == tid] + ["ytmp"])
+                comb = rng.choice([["var", "k2"], ["+", ["var", "k1"], ["var", "k2"]],
+                                   ["+", ["*", ["num", 0.5], ["var", "k1"]], ["*", ["num", 0.5], ["var", "k2"]]]])
+                ops.append(["assign", tgt, None, ["+", ["var", y], ["*", ["var", "<dt>"], comb]], [], 0])
+                sc["uts"][tgt] = tid
+                continue
             if self.memory_bias and rng.random() < 0.45:
                 r = 0.3 + 0.25 * rng.random()     # user-type traffic
+            if rng.random() < 0.04 and not any(n in sc["nums"] or n in sc["bools"] or n in sc["uts"]
+                                               for n in ("pa", "pb", "a2")):
+                # an array variable that is already allocated is assigned, as a whole, array expressions of
+                # DIFFERENT lengths and is subscripted afterwards (persistent arrays are restored at the end)
+                la, lb = rng.sample([2, 3, 4, 5], 2)
+                for nm, ln in (("pa", la), ("pb", lb)):
+                    c = rng.choice(["i", "j"])
+                    ops.append(["call", [nm], "<builtin>array", [["num", ln]], {}, 0])
+                    ops.append(["assign", nm, ["var", c], ["+", ["*", ["num", 0.5], ["var", c]], self.num_leaf(sc)],
+                                [[c, ["num", 0], ["num", ln]]], 0])
+                    sc["arrs"][nm] = ln
+                tgt = rng.choice(persist["arrs"]) if persist["arrs"] and rng.random() < 0.5 else "a2"
+                if tgt == "a2":
+                    ops.append(["assign", tgt, None, ["*", ["num", 2], ["var", "pa"]], [], 0])
+                ops.append(["assign", tgt, None, rng.choice([["*", ["num", -1.5], ["var", "pb"]],
+                                                             ["+", ["var", "pb"], ["var", "pb"]]]), [], 0])
+                self.onebased.discard(tgt)
+                x = rng.choice(["x", "z", "q"])
+                if x not in sc["bools"] and x not in sc["arrs"] and x not in sc["uts"]:
+                    ops.append(["assign", x, None, ["+", ["sub", ["var", tgt], ["num", lb - 1]],
+                                                    ["*", ["num", 2], ["sub", ["var", tgt], ["num", 0]]]], [], 0])
+                    if x not in sc["nums"]:
+                        sc["nums"].append(x)
+                    ops.append(["assign", "<state>s", None, ["+", ["var", "<state>s"], ["*", ["num", 0.25], ["var", x]]],
+                                [], 0])
+                if tgt == "a2":
+                    sc["arrs"][tgt] = lb
+                else:
+                    n = persist["arrlen"][tgt]
+                    ops.append(["call", [tgt], "<builtin>array", [["num", n]], {}, 0])
+                    ops.append(["assign", tgt, ["var", "i"], ["*", ["num", 0.25], ["var", "i"]],
+                                [["i", ["num", 0], ["num", n]]], 0])
+                continue
             if r < 0.03:
                 # two results, both self-dependent: 'x, z <- sf2(x, z)'
                 cands = [n for n in sc["nums"] if n not in ("<t>", "<dt>")]
@@ -312,7 +382,10 @@ class FGen:
                 tid = rng.choice(sorted(set(sc["uts"].values())))
                 same = [u for u, t in sc["uts"].items() if t == tid]
                 expr = ["var", rng.choice(same)] if rng.random() < 0.6 else self.ut_expr(sc, 1, tid)
-                if expr[0] == "call":
+                from vf.sexpr import has
+                if has(expr, {"call"}):
+                    # subset boundary: isolate_function_calls rewrites Assign statements only, so the Fortran
+                    # target does not take calls inside a yield expression (the generator stops with a KeyError)
                     expr = ["var", rng.choice(same)]
                 time = rng.choice([["var", "<t>"], ["+", ["var", "<t>"], ["var", "<dt>"]], ["num", 0]])
                 ops.append(["yield", expr, tid, time, rng.choice(["final", "t0"]), self.s(expr)])
@@ -388,7 +461,7 @@ class FGen:
             body += self.body(sc, persist, names, name, budget, 0, False)
             # kinds of persistent state must be inferable: whole-variable assignments
             body.append(["assign", "<state>s", None, ["+", ["var", "<state>s"], ["var", "<dt>"]], [], 0])
-            k = self.fresh("kk")
+            k = self.fresh("kk") if rng.random() < 0.5 else rng.choice(["k1", "k2", "u"])
             body.append(["call", [k], "<func>rhs", [["var", "<t>"], ["var", "<state>y"]], {}, 0])
             body.append(["assign", "<state>y", None, ["+", ["var", "<state>y"], ["*", ["var", "<dt>"], ["var", k]]], [], 0])
             if self.two_types:
@@ -493,10 +566,23 @@ class Generated:
     pass
 
 
-def generate(dag, script, trace=False, module="vfmod"):
+def generate(dag, script, trace=False, module="vfmod", hooks=False, instrument=False):
     import dagrt.codegen.fortran as f
-    cg = f.CodeGenerator(module, user_type_map=user_type_map(script), function_registry=registry(script),
-                         trace=trace)
+    freg = registry(script)
+    kw = {}
+    if hooks:
+        from dagrt.function_registry import register_function
+        for hook in ("notify_pre_state_update", "notify_post_state_update"):
+            freg = register_function(freg, hook, ("updated_component",))
+            freg = freg.register_codegen(hook, "fortran", f.CallCode("""
+                ! ${updated_component}
+                """))
+        kw = dict(emit_instrumentation=True, timing_function="omp_get_wtime", call_before_state_update="notify_pre_state_update",
+                  call_after_state_update="notify_post_state_update")
+    elif instrument:
+        kw = dict(emit_instrumentation=True, timing_function="omp_get_wtime")
+    cg = f.CodeGenerator(module, user_type_map=user_type_map(script), function_registry=freg,
+                         trace=trace, **kw)
     code = cg(dag)
     g = Generated()
     g.code = code
